@@ -60,9 +60,9 @@ def shards(tier, seed):
         if tier == "quick":
             k = (seed + i) % len(mine)
             mine = (mine[k:] + mine[:k])[:3]
-        out.append(dict(tier=tier, seed=seed * 1000 + i, idx=i, devs=mine, ncases=(40 if tier == "quick" else 300)))
+        out.append(dict(tier=tier, seed=seed * 1000 + i, idx=i, devs=mine, ncases=(80 if tier == "quick" else 300)))
     for i in range(8 if tier == "quick" else 16):
-        out.append(dict(kind="core", tier=tier, seed=seed * 1000 + 500 + i, idx=i, ncfg=(1 if tier == "quick" else 4), ncases=(10 if tier == "quick" else 25)))
+        out.append(dict(kind="core", tier=tier, seed=seed * 1000 + 500 + i, idx=i, ncfg=(2 if tier == "quick" else 4), ncases=(12 if tier == "quick" else 25)))
     return out
 
 
